@@ -51,6 +51,17 @@ let handle kind c =
           diff (Printf.sprintf "step-%d-thread-%d-%s" i tid scen) ~model:(show5 mm) ~impl:(show5 (w, p, cu, pers, ncl))
         end
       end;
+      (* the pending amount sticks too: when a step of an adder raises it, the new
+         value is the old one plus that adder's amount, or the limit 2^33-1 *)
+      (let x0 = w_extra !last_w and x1 = w_extra w in
+       if Z.ltb x0 x1 then
+         match List.nth specs tid with
+         | ("add", a) ->
+           let want = if Z.ltb mAXEXTRA (Z.add x0 a) then mAXEXTRA else Z.add x0 a in
+           if x1 <> want then
+             prop "no-wrap" (Printf.sprintf "step %d: an in-memory add of %s took the pending amount from %s to %s (sum or the limit 2^33-1 expected: %s)"
+                               i (tok_of_z a) (tok_of_z x0) (tok_of_z x1) (tok_of_z want))
+         | _ -> ());
       if not (Z.leb !last_p pers) then
         prop "no-wrap" (Printf.sprintf "step %d: the persisted value went DOWN from %s to %s (values stick at 2^64-1, they never wrap)" i (tok_of_z !last_p) (tok_of_z pers));
       if not (instant_ok (z_of_int nth) !begun w pers) then
